@@ -98,6 +98,19 @@ def run(ctx, case):
         BMSMap.read(lines, cfg)
     except Exception:
         pass
+    if ctx.cur_k is not None and ctx.cur_k % 4 == 0:
+        # the caller's own layout dict, read with, then two lanes swapped in that same dict and read again
+        try:
+            own = dict(cfg)
+            BMSMap.read(lines, own)
+            lane_keys = [k for k, v in own.items() if isinstance(v, int)]
+            if len(lane_keys) >= 2:
+                a, b = lane_keys[0], lane_keys[-1]
+                own[a], own[b] = own[b], own[a]
+                BMSMap.read(lines, own)
+                ctx.state("c04.layout_edited_in_place", True)
+        except Exception:
+            pass
     if case["cls"] != "corpus" and ctx.cur_k is not None and ctx.cur_k % 5 == 1:
         from rv.monitors import fileio
         try:
